@@ -64,3 +64,16 @@ Example C20_example :
             g_stdhttp := false; g_strict := false; g_client := false; g_models := true; g_spec := false |}
   /\ generation_targets ["types"; "bogus"] (gen_zero, {| skip_fmt := false; skip_prune := false |}) = None.
 Proof. vm_compute. split; reflexivity. Qed.
+
+(** The legacy -import-mapping flag (Model/CmdMap.v = pkg/util/inputmapping.go): with keys and values quoted, commas
+    and colons inside them are data - every map without double quotes in its keys and values is read back exactly
+    (this is what lets an external reference given as a URL be mapped from the command line). *)
+From V Require Import Model.CmdMap Proofs.CmdMapProofs.
+Theorem C20_import_mapping_flag_roundtrip : forall l,
+  l <> [] -> Forall clean_pair l -> parse_map (render_map l) = Some l.
+Proof. exact parse_render_roundtrip. Qed.
+Print Assumptions C20_import_mapping_flag_roundtrip.
+
+Theorem C20_import_mapping_flag_rejects_two_colons : parse_map "a:b:c"%string = None.
+Proof. exact two_colons_rejected. Qed.
+Print Assumptions C20_import_mapping_flag_rejects_two_colons.
